@@ -395,7 +395,7 @@ func fileUses(it *Iface, mi int, p int) bool {
 	}
 	if it.OneFile || len(it.TParams) > 0 {
 		for _, tp := range it.TParams {
-			if tp.Constraint == fmt.Sprintf("pkgnum:%d", p) || tp.Constraint == fmt.Sprintf("pkgiface:%d", p) || tp.Constraint == fmt.Sprintf("pkgkey:%d", p) {
+			if tp.Constraint == fmt.Sprintf("pkgnum:%d", p) || tp.Constraint == fmt.Sprintf("pkgiface:%d", p) || tp.Constraint == fmt.Sprintf("pkgkey:%d", p) || tp.Constraint == fmt.Sprintf("depunion:%d", p) {
 				return true
 			}
 		}
